@@ -28,6 +28,7 @@ import itertools
 import random
 
 from vlib import agg_adapters as A
+from vlib import c11_scenarios as S
 from vlib.props import C01 as _c01
 
 ID = 'C11'
@@ -38,7 +39,12 @@ RULE = (
     'the merge for m <= 4, 12 sampled bracketings x permutations beyond); states are '
     'built from 1 batch (30%: 2 batches; CallableMetric states half of the time '
     'directly by new(batch), as add() does internally); non-trivial = >= 3 states or a fresh state '
-    'involved; distinct = hash(adapter, mode, dataset seed, sizes)')
+    'involved; distinct = hash(adapter, mode, dataset seed, sizes). Second audit round: '
+    'sub-check "independence" (a state, then a second created state that is updated: the '
+    'first must not change) on every adapter; KerasAggregateFn around a stand-in metric; '
+    'scenario reservoir_many (vlib/c11_scenarios.py): 20-300 tiny FixedSizeSample states or '
+    '3-8 states of 1e5-3e6 samples merged under two of {left fold, balanced tree, reversed, '
+    'shuffled, one n-ary merge_states}, then result() twice and 1-3 further add()s')
 ASSUMPTIONS = list(_c01.ASSUMPTIONS) + [
     'a fresh state is what the constructor / create_state() returns, never fed',
     'states are not built by new(batch) from a batch that holds only NaN (such a state '
@@ -54,12 +60,20 @@ ASSUMPTIONS = list(_c01.ASSUMPTIONS) + [
     'nothing and return internal containers (Counter, UnboundedSampler, '
     'FixedSizeSample) are not scribbled on',
     'merge_states: only the first state may be modified (docstring of Aggregatable)',
+    'adapters that exist for C01 input classes only (",inf" data, ",all-metrics" / macro / '
+    'binary-average configurations without vocabulary) are not iterated here '
+    '(Adapter.checks); the merge laws on them are those of their sibling adapters',
+    'reservoir_many: invariants only (size, membership, reviewed count, operand unchanged, '
+    'result repeatable, add() after the merges works); sampling probabilities are not checked',
 ]
 REQUIRED = ['grouping_checks', 'states_built_by_new', 'permutation_checks', 'identity_checks',
             'operand_checks', 'result_checks', 'scribble_checks', 'reservoir_checks',
             'obj_api_checks', 'aggfn_api_checks', 'fresh_state_cases',
             'nary_merge_states_checks', 'nary_operand_checks',
-            'nary_operand_checks_4plus'] + _c01.FAMILY_COUNTERS
+            'nary_operand_checks_4plus', 'independence_checks',
+            'reservoir_many_states_cases', 'reservoir_many_tiny_cases',
+            'reservoir_many_large_cases', 'reservoir_add_after_merge_checks',
+            ] + _c01.FAMILY_COUNTERS
 EXHAUSTIVE = {'quick': False, 'thorough': False}
 CHUNK_TIMEOUT_S = {'quick': 240, 'thorough': 3000}
 
@@ -68,10 +82,10 @@ CASES_PER_ADAPTER_MODE = {'quick': 32, 'thorough': 1600}
 
 
 def plan(tier, seed):
-  ams = A.adapter_modes()
+  ams = A.adapter_modes('C11')
   k = N_CHUNKS[tier]
-  specs = [{'work': [], 'rseed': seed, 'cases': CASES_PER_ADAPTER_MODE[tier]}
-           for _ in range(k)]
+  specs = [{'work': [], 'rseed': seed, 'cases': CASES_PER_ADAPTER_MODE[tier],
+            'scenarios': S.plan_slice(tier, i, k)} for i in range(k)]
   parts = 1 if tier == 'quick' else 8
   j = 0
   for name, mode in ams:
@@ -422,6 +436,29 @@ def check_case(ctx, case, reg):
         viol('result_aliases_internal_state', {'state': fed[0], 'update': x_rows}, diffs=d)
 
 
+  # ---- 6. states of one aggregate are independent objects ----------------------------------
+  # (a freshly created state is neutral: creating it, and updating it, leaves every
+  # state that already exists alone - "later updates to either side do not leak")
+  if fed:
+    ctx.count('independence_checks')
+    try:
+      a = drv.make()
+      _guard('update', drv.feed, a, parts[fed[0]])
+      snap = drv.observe(a)
+      b = _guard('create', drv.make)
+      d = A.compare_obs(ad, drv.observe(a), snap)
+      if d:
+        viol('creating_a_state_disturbs_an_existing_state', {'state': fed[0]}, diffs=d)
+      else:
+        _guard('update', drv.feed, b, x_rows)
+        d = A.compare_obs(ad, drv.observe(a), snap)
+        if d:
+          viol('update_of_a_fresh_state_leaks_into_an_existing_state',
+               {'state': fed[0], 'update': x_rows}, diffs=d)
+    except _Raised as r:
+      viol(r.step + '_raises', {'sub_check': 'independence'}, exc=r.exc)
+
+
 def run_chunk(ctx, spec):
   reg = A.registry()
   tier = spec['tier']
@@ -435,7 +472,12 @@ def run_chunk(ctx, spec):
       check_case(ctx, case, reg)
       if i == lo and len(ctx.samples) < 2:
         ctx.sample(case)
+  for item in spec.get('scenarios', ()):
+    S.run_item(ctx, spec['rseed'], tier, item)
 
 
 def run_case(ctx, case):
+  if case.get('scenario'):
+    S.check(ctx, case)
+    return
   check_case(ctx, case, A.registry())
